@@ -49,6 +49,11 @@ fn content(n: usize, salt: usize) -> Vec<u8> {
     (0..n).map(|i| ((i * 31 + salt * 7 + i / 251) % 256) as u8).collect()
 }
 
+fn fail(what: String) -> ! {
+    println!("COUNTEREXAMPLE: {what}");
+    std::process::exit(1);
+}
+
 fn run_client(srv: &Srv, upload: bool, file: &str, blk: usize, ws: u16, recv_dir: &Path) -> Result<(), String> {
     let mut args: Vec<String> = vec![
         file.into(), "-p".into(), srv.port.to_string(), "-b".into(), blk.to_string(), "-w".into(), ws.to_string(),
@@ -57,7 +62,15 @@ fn run_client(srv: &Srv, upload: bool, file: &str, blk: usize, ws: u16, recv_dir
     args.push(if upload { "-u".into() } else { "-d".into() });
     let cfg = ClientConfig::new(args.into_iter()).map_err(|e| format!("ClientConfig::new: {e}"))?;
     let mut client = Client::new(&cfg).map_err(|e| format!("Client::new: {e}"))?;
-    client.run().map_err(|e| e.to_string())
+    // the client waits for the first reply without a time-out: a server that never answers would hang this program
+    let (tx, rx) = std::sync::mpsc::channel();
+    std::thread::spawn(move || {
+        let _ = tx.send(client.run().map_err(|e| e.to_string()));
+    });
+    match rx.recv_timeout(Duration::from_secs(60)) {
+        Ok(r) => r,
+        Err(_) => fail(format!("{} of {:?} (blksize {blk}, windowsize {ws}): the client got no answer and no error within 60 s", if upload { "upload" } else { "download" }, file)),
+    }
 }
 
 fn wait_for(path: &Path, want: &[u8]) -> Result<(), String> {
@@ -76,11 +89,6 @@ fn wait_for(path: &Path, want: &[u8]) -> Result<(), String> {
         }
         std::thread::sleep(Duration::from_millis(10));
     }
-}
-
-fn fail(what: String) -> ! {
-    println!("COUNTEREXAMPLE: {what}");
-    std::process::exit(1);
 }
 
 fn main() {
